@@ -178,7 +178,8 @@ def replay_pair(case):
         else:
             outside.append("unit: zero vector (undefined)")
     record = None
-    if not problems and not outside_blocks_record(outside) and case["sa"] == case["sb"] == 1:
+    # the record of real results is made whether or not the comparison above passed: TLC decides on its own
+    if not outside_blocks_record(outside) and case["sa"] == case["sb"] == 1 and not any(p[1].startswith("model accepts, code raised") for p in problems):
         record = record_pair(case, a, b)
         if isinstance(record, tuple):
             problems.append(record)
@@ -307,7 +308,7 @@ def replay_triple(case):
                             ("c_r", case["crossr"], "c x (a+b)")):
         if r[key] != want:
             problems.append((what, f"{what} = {r[key]}, model {want}"))
-    return case, problems, outside, (None if problems else r)
+    return case, problems, outside, r
 
 
 # ---------------------------------------------------------------------------------------------------------
